@@ -11,6 +11,7 @@ formats, comments, hyperlinks, tables) is covered by the differential oracle of
 `harness/cmd/vh/c18*.go` only.
 -/
 import XlModel.Lemmas.Settings
+import XlModel.Lemmas.CondFmt
 
 namespace XlModel.Props.C18
 open XlModel XlModel.Settings
@@ -182,6 +183,52 @@ theorem droplist_formula_roundtrip (f : List Char) (hlen : ¬ Facts.MaxFieldLeng
 to `""` (two characters) instead of `"""` -/
 theorem finding_droplist_only_quotes :
     (setDropList ['"']).map unescapeDV = some ['"', '"'] ∧ ['"', '"'] ≠ ('"' :: ['"'] ++ ['"']) := by decide
+
+/-! ### data-validation formulas set by SetRange / SetSqrefDropList -/
+
+/-- `dv_set_get_roundtrip` for the formula fields, partial: SetRange (string formula) and
+SetSqrefDropList store `formulaEscaper(f)` as inner XML; GetDataValidations returns
+`unescapeDataValidationFormula` of it: equal to `f` for every formula that does not start
+with a double quote (after the XML round trip of the inner text, which is the identity on
+escaped text — not modelled) -/
+theorem dv_formula_roundtrip_partial (f : List Char) (h : [dq].isPrefixOf f = false) :
+    unescapeDV (escape f) = f := by
+  have hp : [dq].isPrefixOf (escape f) = false := by
+    cases f with
+    | nil => rfl
+    | cons c r =>
+      have hc : c ≠ '"' := by
+        intro e; subst e; simp [dq, List.isPrefixOf] at h
+      rw [escape_cons]
+      unfold escChar
+      by_cases h1 : c = '&'
+      · subst h1; simp [dq, List.isPrefixOf]
+      · by_cases h2 : c = '<'
+        · subst h2; simp [dq, List.isPrefixOf]
+        · by_cases h3 : c = '>'
+          · subst h3; simp [dq, List.isPrefixOf]
+          · have : ('"' == c) = false := by simpa using fun e => hc e.symm
+            simp [h1, h2, h3, dq, List.isPrefixOf, this]
+  unfold unescapeDV
+  rw [hp]
+  exact unescape_escape f
+
+/-- a formula that starts with a double quote (a string literal) is additionally
+un-doubled by the getter's "text detection" -/
+theorem dv_formula_quoted (r : List Char) :
+    unescapeDV (escape ('"' :: r)) = unquote ('"' :: r) := by
+  have he : escape ('"' :: r) = '"' :: escape r := by rw [escape_cons]; rfl
+  unfold unescapeDV
+  have hp : [dq].isPrefixOf (escape ('"' :: r)) = true := by rw [he]; simp [dq, List.isPrefixOf]
+  rw [hp]
+  simp only [if_true]
+  rw [unescape_escape]
+
+/-- finding (dv:Formula1:string-literal-doubled-quote): the string literal `"a""b"` set
+through SetRange reads back as `"a"b"` — the getter treats every formula starting with a
+quote as a drop list written by SetDropList -/
+theorem finding_dv_string_literal_quotes :
+    unescapeDV (escape ['"', 'a', '"', '"', 'b', '"']) = ['"', 'a', '"', 'b', '"'] := by decide
 
 /-! ## legacy XOR password hash -/
 
@@ -359,5 +406,250 @@ theorem definedname_set_delete_example :
         | .ok s2 => (getDN s2).isEmpty
         | .error _ => false)
      | .error _ => false) = true := by decide
+
+/-! ## protection as a state transformer (sheet and workbook) -/
+
+section ProtectionThms
+open XlModel.Protection
+
+/-- the extracted tables are the ones of the composite literals in ProtectSheet /
+ProtectWorkbook: 15 inverted "allow" options + the constant `Sheet: true`; two plain
+workbook locks; the six ISO algorithm names; both spin counts 100 000 -/
+theorem protection_facts_pinned :
+    Facts.C18.sheetProtFlags.length = 15 ∧ Facts.C18.sheetProtFlags.all (fun t => t.2.2) = true ∧
+    Facts.C18.sheetProtFlags.contains ("Objects", "EditObjects", true) = true ∧
+    Facts.C18.sheetProtFlags.contains ("Scenarios", "EditScenarios", true) = true ∧
+    Facts.C18.sheetProtConsts = [("Sheet", true)] ∧
+    Facts.C18.workbookProtFlags = [("LockStructure", "LockStructure", false), ("LockWindows", "LockWindows", false)] ∧
+    Facts.C18.workbookProtConsts = [] ∧
+    Facts.C18.isoAlgorithms = ["MD4", "MD5", "SHA-1", "SHA-256", "SHA-384", "SHA-512"] ∧
+    Facts.C18.sheetProtectionSpinCount = 100000 ∧ Facts.C18.workbookProtectionSpinCount = 100000 := by decide
+
+/-- Clause "re-setting replaces the previous item" (the class of seeded change C18b/1):
+the state after a protect call does not depend on the protection that was there before -/
+theorem protect_replaces (k : PKind) (H : Hash) (salt : List Char) (prev prev' : Option PRec) (o : Opts) :
+    protect k H salt prev o = protect k H salt prev' o := by
+  unfold protect
+  rfl
+
+/-- Impl ⊑ Spec: an accepted protect call stores exactly `recordOf o`; a rejected one
+(unsupported algorithm / password length) returns the error and leaves the flags-only record -/
+theorem protect_stores_recordOf (k : PKind) (H : Hash) (salt : List Char) (prev : Option PRec) (o : Opts) :
+    (∀ r, recordOf k H salt o = some r → protect k H salt prev o = (some r, true)) ∧
+    (recordOf k H salt o = none → protect k H salt prev o = (some ⟨[], [], [], [], 0, flagsOf k o⟩, false)) := by
+  cases k <;> cases hp : o.pw.isEmpty
+  · cases ha : o.alg.isEmpty
+    · cases hi : iso H o.alg o.pw salt <;> simp [recordOf, protect, hp, ha, hi]
+    · simp [recordOf, protect, hp, ha]
+  · simp [recordOf, protect, hp]
+  · cases hi : iso H (wbAlg o.alg) o.pw salt <;> simp [recordOf, protect, hp, hi]
+  · simp [recordOf, protect, hp]
+
+theorem flag_names_nodup (k : PKind) : ((flagTable k).map (·.1)).Nodup := by
+  cases k <;> decide
+
+/-- `protect_get_roundtrip` for the flags: every stored flag reads back as its option
+(inverted for the sheet "allow" options), for every option combination -/
+theorem protect_get_roundtrip (k : PKind) (o : Opts) (t : String × String × Bool) (ht : t ∈ flagTable k) :
+    (flagsOf k o).lookup t.1 = some (xor t.2.2 (o.field t.2.1)) := by
+  unfold flagsOf
+  exact lookup_map_fst (flagTable k) (fun t => xor t.2.2 (o.field t.2.1)) (constTable k) (flag_names_nodup k) t ht
+
+/-- the flags of the stored record are those of the last accepted (or rejected) call -/
+theorem protect_flags (k : PKind) (H : Hash) (salt : List Char) (prev : Option PRec) (o : Opts) :
+    ∃ r ok, protect k H salt prev o = (some r, ok) ∧ r.flags = flagsOf k o := by
+  cases k <;> cases hp : o.pw.isEmpty
+  · cases ha : o.alg.isEmpty
+    · cases hi : iso H o.alg o.pw salt <;> simp [protect, hp, ha, hi]
+    · simp [protect, hp, ha]
+  · simp [protect, hp]
+  · cases hi : iso H (wbAlg o.alg) o.pw salt <;> simp [protect, hp, hi]
+  · simp [protect, hp]
+
+/-- `unprotect_removes_iff_verifies`: the protection is removed exactly when the password
+argument verifies against the stored record (or no password is given); otherwise the call
+is refused and the state is unchanged -/
+theorem unprotect_removes_iff_verifies (k : PKind) (H : Hash) (st : Option PRec) (pw : Option (List Char)) :
+    (verifies k H st pw = true → unprotect k H st pw = (none, true)) ∧
+    (verifies k H st pw = false → unprotect k H st pw = (st, false)) := by
+  cases pw with
+  | none => simp [verifies, unprotect]
+  | some p =>
+    cases st with
+    | none => simp [verifies, unprotect]
+    | some r =>
+      cases k <;> cases ha : r.alg.isEmpty
+      · cases hi : iso H r.alg p r.salt with
+        | none => simp [verifies, unprotect, ha, hi]
+        | some h =>
+          by_cases hh : r.hash = h
+          · subst hh; simp [verifies, unprotect, ha, hi]
+          · have hh' : ¬ h = r.hash := fun e => hh e.symm
+            simp [verifies, unprotect, ha, hi, hh, hh']
+      · by_cases hq : r.password = passwdOf p <;> simp [verifies, unprotect, ha, hq]
+      · cases hi : iso H r.alg p r.salt with
+        | none => simp [verifies, unprotect, ha, hi]
+        | some h =>
+          by_cases hh : r.hash = h
+          · subst hh; simp [verifies, unprotect, ha, hi]
+          · have hh' : ¬ h = r.hash := fun e => hh e.symm
+            simp [verifies, unprotect, ha, hi, hh, hh']
+      · simp [verifies, unprotect, ha]
+
+/-- a password that was set always verifies, in the state-transformer model: after an
+accepted protect with a non-empty password, unprotect with the same password removes it -/
+theorem protect_then_unprotect (k : PKind) (H : Hash) (salt : List Char) (prev : Option PRec) (o : Opts) (st : Option PRec)
+    (hpw : o.pw.isEmpty = false) (h : protect k H salt prev o = (st, true)) :
+    unprotect k H st (some o.pw) = (none, true) := by
+  apply (unprotect_removes_iff_verifies k H st (some o.pw)).1
+  cases k
+  · cases ha : o.alg.isEmpty
+    · cases hi : iso H o.alg o.pw salt with
+      | none => simp [protect, hpw, ha, hi] at h
+      | some hv =>
+        simp [protect, hpw, ha, hi] at h
+        subst h
+        simp [verifies, ha, hi]
+    · simp [protect, hpw, ha] at h
+      subst h
+      simp [verifies]
+  · have hne : (wbAlg o.alg).isEmpty = false := by
+      unfold wbAlg
+      cases hz : o.alg.isEmpty
+      · simp [hz]
+      · simp; decide
+    cases hi : iso H (wbAlg o.alg) o.pw salt with
+    | none => simp [protect, hpw, hi] at h
+    | some hv =>
+      simp [protect, hpw, hi] at h
+      subst h
+      simp [verifies, hne, hi]
+
+/-- non-vacuity / the seeded history C18b/1 in the model: protect with a password, then
+protect without one: no hash is left and any password is accepted by the workbook variant -/
+theorem protect_replaces_example :
+    let H : Hash := fun a p s => a ++ p ++ s
+    let s1 := (protect .workbook H ['s'] none ⟨"SHA-256".toList, "first".toList, [("LockStructure", true)]⟩).1
+    let s2 := (protect .workbook H ['s'] s1 ⟨[], [], [("LockWindows", true)]⟩).1
+    s2 = some ⟨[], [], [], [], 0, [("LockStructure", false), ("LockWindows", true)]⟩ ∧
+    unprotect .workbook H s2 (some "anything".toList) = (none, true) := by decide
+
+end ProtectionThms
+
+/-! ## conditional formats: type tables and list semantics -/
+
+section CondFmtThms
+open XlModel.CondFmt
+
+/-- every rule type the setter accepts has a draw function (else a "valid" type would be
+rejected), and every criteria word decodes to a canonical word that encodes to the same
+operator: `encode (decode (encode c)) = encode c` for every entry of the table -/
+theorem cf_type_tables :
+    Facts.C18.validType.all (fun p => Facts.C18.drawContFmtFuncKeys.contains p.2) = true ∧
+    Facts.C18.criteriaType.all (fun p =>
+      match Facts.C18.operatorType.lookup p.2 with
+      | some w => Facts.C18.criteriaType.lookup w == some p.2
+      | none => false) = true ∧
+    Facts.C18.operatorType.all (fun p => Facts.C18.criteriaType.lookup p.2 == some p.1) = true := by decide
+
+/-- `cf_set_get`: an accepted set of `n` rules on range `r` adds exactly `n` rules under key
+`r` (several formats per range accumulate) and leaves every other key as it was -/
+theorem cf_set_get (s : Sheet) (r r' : List Char) (n : Nat) :
+    count (setCF s r n) r' = count s r' + (if r' = r then n else 0) ∧ listed (setCF s r n) r = true := by
+  constructor
+  · unfold setCF
+    rw [count_append]
+    by_cases h : r' = r
+    · subst h; simp [count]
+    · have : (r == r') = false := by simpa using fun e => h e.symm
+      simp [count, h, this]
+  · simp [listed, setCF]
+
+/-- `cf_unset_exactly`: unset removes every format of exactly that range — the key
+disappears — and the blocks of every other range are untouched, in order -/
+theorem cf_unset_exactly (s : Sheet) (r r' : List Char) :
+    listed (unsetCF s r) r = false ∧ count (unsetCF s r) r = 0 ∧
+    (r' ≠ r → (unsetCF s r).filter (fun b => b.sqref == r') = s.filter (fun b => b.sqref == r')) := by
+  refine ⟨?_, ?_, ?_⟩
+  · simp [listed, unsetCF]
+  · have : (unsetCF s r).filter (fun b => b.sqref == r) = [] := by
+      simp [unsetCF, List.filter_filter]
+    simp [count, this]
+  · intro h
+    unfold unsetCF
+    rw [List.filter_filter]
+    apply List.filter_congr
+    intro b _
+    by_cases hb : b.sqref = r'
+    · subst hb; simp [h]
+    · simp [hb]
+
+/-- the numbering repaired by 08e0c15: rule priorities (and with them the x14 ids) stay
+pairwise distinct under set and unset, whatever the history -/
+theorem cf_priorities_unique (s : Sheet) (r : List Char) (n : Nat) (h : (allPrios s).Nodup) :
+    (allPrios (setCF s r n)).Nodup ∧ (allPrios (unsetCF s r)).Nodup := by
+  constructor
+  · rw [allPrios_setCF, List.nodup_append]
+    refine ⟨h, ?_, ?_⟩
+    · show List.Pairwise (· ≠ ·) _
+      exact List.Pairwise.map _ (fun a b (h : a ≠ b) => by omega) List.nodup_range
+    · intro a ha b hb
+      have := le_maxPrio s a ha
+      simp only [List.mem_map, List.mem_range] at hb
+      obtain ⟨i, _, e⟩ := hb
+      omega
+  · exact List.Nodup.sublist (allPrios_filter_sublist s _) h
+
+/-- the history of seeded change C18a/1 and of defect 08e0c15 in the model: set one rule,
+set three, unset the first range, set three more: all six priorities differ -/
+theorem cf_numbering_example :
+    allPrios (setCF (unsetCF (setCF (setCF [] ['E'] 1) ['C'] 3) ['E']) ['A'] 3) = [2, 3, 4, 5, 6, 7] := by decide
+
+end CondFmtThms
+
+/-! ## open findings about accepted-and-ignored values: what IS true of the setters -/
+
+theorem ignore_guards_pinned :
+    Facts.C18.sheetViewNames = ["normal", "pageLayout", "pageBreakPreview"] ∧
+    Facts.C18.zoomMin = 10 ∧ Facts.C18.zoomMax = 400 ∧ Facts.C18.firstPageNumberAbove = 0 := by decide
+
+/-- a valid View / in-range ZoomScale / positive FirstPageNumber reads back as set -/
+theorem view_zoom_firstpage_roundtrip (oldV newV : List Char) (oldZ newZ : Int) (oldP : Option Nat) (newP : Nat)
+    (hv : Facts.C18.sheetViewNames.any (fun n => n.toList == newV) = true)
+    (hz : 10 ≤ newZ ∧ newZ ≤ 400) (hp : 0 < newP) :
+    getView (setView oldV newV) = newV ∧ getZoom (setZoom oldZ newZ) = newZ ∧
+    getFirstPage (setFirstPage oldP newP) = newP := by
+  have hg := ignore_guards_pinned
+  refine ⟨?_, ?_, ?_⟩
+  · have hne : newV.isEmpty = false := by
+      cases newV with
+      | nil => rw [hg.1] at hv; simp at hv
+      | cons _ _ => rfl
+    simp [setView, hv, getView, hne]
+  · have h1 : newZ ≥ (Facts.C18.zoomMin : Int) ∧ newZ ≤ (Facts.C18.zoomMax : Int) := by
+      rw [hg.2.1, hg.2.2.1]; omega
+    simp [setZoom, getZoom, h1]
+  · have h1 : newP > Facts.C18.firstPageNumberAbove := by rw [hg.2.2.2]; exact hp
+    have h2 : newP ≠ 0 := by omega
+    simp [setFirstPage, getFirstPage, h1, h2]
+
+/-- finding (sheetview:View:invalid-value, sheetview:ZoomScale:out-of-range,
+layout:FirstPageNumber:zero): the full statement fails without the validity hypotheses — the
+setter has no error path for these fields, the value is dropped and the previous one stays -/
+theorem finding_invalid_values_ignored (oldV newV : List Char) (oldZ newZ : Int) (oldP : Option Nat)
+    (hv : Facts.C18.sheetViewNames.any (fun n => n.toList == newV) = false)
+    (hz : newZ < 10 ∨ 400 < newZ) :
+    setView oldV newV = oldV ∧ setZoom oldZ newZ = oldZ ∧ setFirstPage oldP 0 = oldP := by
+  have hg := ignore_guards_pinned
+  refine ⟨by simp [setView, hv], ?_, ?_⟩
+  · have h1 : ¬ (newZ ≥ (Facts.C18.zoomMin : Int) ∧ newZ ≤ (Facts.C18.zoomMax : Int)) := by
+      rw [hg.2.1, hg.2.2.1]; omega
+    simp [setZoom, h1]
+  · simp [setFirstPage]
+
+/-- concrete witnesses replayed by the harness: View "bogus", ZoomScale 5, FirstPageNumber 0 -/
+theorem finding_invalid_values_example :
+    getView (setView [] "bogus".toList) = "normal".toList ∧ getZoom (setZoom 0 5) = 100 ∧
+    getFirstPage (setFirstPage (some 5) 0) = 5 := by decide
 
 end XlModel.Props.C18
